@@ -376,8 +376,8 @@ SUBS = [
 
 # known-finding predicates: (case, label, msg) -> bool
 def _mpc_all_equal(case, label, msg):
-    """components equal (exactly, or up to differences that underflow when squared): the mean-removed
-    scatter matrix np.cov(re, im) is exactly zero and MPC = 0/0"""
+    """components equal (exactly, or up to differences below ~1e-77): the denominator (l0 + l1)^2 of MPC,
+    built from the mean-removed scatter matrix np.cov(re, im), is exactly zero in floating point and MPC = 0/0"""
     if label not in ("collinear-MPC", "MPC-bounds"):
         return False
     if "v" in case:
@@ -385,8 +385,9 @@ def _mpc_all_equal(case, label, msg):
     else:
         z = _z(case["phi"])
     with np.errstate(all="ignore"):
-        S = np.cov(z.real, z.imag)
-    return bool(np.all(S == 0))
+        lam = np.linalg.eigvals(np.cov(z.real, z.imag))
+        den = (lam[0] + lam[1]) ** 2
+    return bool(den == 0 or not np.isfinite(den))
 
 
 KNOWN = {"mpc_all_components_equal": _mpc_all_equal}
